@@ -88,3 +88,19 @@ Theorem C18_order_is_real_order :
   forall a b va vb, scaled a = EFin va -> scaled b = EFin vb -> num_cmp a b = Rcompare (num_R a) (num_R b).
 Proof. exact num_cmp_is_real_order. Qed.
 Print Assumptions C18_order_is_real_order.
+
+(* the same cast against the Coq standard library's executable IEEE-754 specification (Coq.Floats.SpecFloat, the functions
+   Flocq's binary_normalize is made of: FlocqLink.flocq_binary_normalize_is_specfloat): no real numbers, no axioms *)
+From JB Require SpecFloatLink.
+Theorem C18_as_f64_is_specfloat_nearest_even :
+  forall z : Z, (- 2 ^ 63 <= z < 2 ^ 64)%Z ->
+  SpecFloatLink.bits_of_SF64 (SpecFloat.binary_normalize 53 1024 z 0 false) = Z.of_N (round_ne z).
+Proof. exact SpecFloatLink.round_ne_is_specfloat. Qed.
+Print Assumptions C18_as_f64_is_specfloat_nearest_even.
+
+Theorem C18_flocq_binary_normalize_is_specfloat :
+  forall (z e : Z) (szero : bool),
+  bits_of_b64 (binary_normalize 53 1024 eq_refl eq_refl mode_NE z e szero) =
+  SpecFloatLink.bits_of_SF64 (SpecFloat.binary_normalize 53 1024 z e szero).
+Proof. exact flocq_normalize_bits_specfloat. Qed.
+Print Assumptions C18_flocq_binary_normalize_is_specfloat.
